@@ -177,6 +177,9 @@ func runC09(c *Ctx) error {
 		strings.Fields("& P +A ! P +B ! P +C R !"), strings.Fields("& +A ! P S +B B ! +C P !"),
 		// a handler is stopped and another one is added afterwards: its middlewares are its own
 		strings.Fields("+A +B A B ! -A +C C !"), strings.Fields("R +A +B +C B A C ! -B +D D ! -A R !"),
+		// handlers WITHOUT a publisher whose outputs come from a middleware: the publisher decorators act on them like on any other
+		// (the innermost decorator takes care of them itself)
+		strings.Fields("% P +A P +B R P !"), strings.Fields("% +A P A ! P P +B B !"), strings.Fields("% R P P +A ! +B P S !"),
 	} {
 		progs = append(progs, c09Prog(f))
 	}
@@ -330,6 +333,7 @@ func c09Run(r *tr.Run, prog c09Prog) {
 	for _, op := range prog {
 		switch {
 		case op == "~" || op == "^" || op == "&":
+		case op == "%":
 		case strings.HasPrefix(op, "-"):
 			// the handler is stopped (and, once it has ended, forgotten by the router); the others -- and handlers added later -- are not affected
 			h := op[1:]
@@ -424,12 +428,23 @@ func c09Run(r *tr.Run, prog c09Prog) {
 			npd++
 			id := npd
 			r.Emit("pdec", "id", id)
-			router.AddPublisherDecorators(message.MessageTransformPublisherDecorator(func(m *message.Message) {
+			dec := message.MessageTransformPublisherDecorator(func(m *message.Message) {
 				cu := strings.TrimSuffix(m.UUID, ".o")
 				mu.Lock()
 				pubOrd[cu] = append(pubOrd[cu], id)
 				mu.Unlock()
-			}))
+			})
+			if prog[0] == "%" {
+				// the innermost decorator keeps what reaches it (the placeholder of a handler without publisher would refuse it)
+				router.AddPublisherDecorators(func(p message.Publisher) (message.Publisher, error) {
+					if fmt.Sprintf("%T", p) == "message.disabledPublisher" {
+						p = scripted.NewPub("sink")
+					}
+					return dec(p)
+				})
+				continue
+			}
+			router.AddPublisherDecorators(dec)
 		case op == "S":
 			nsd++
 			id := nsd
@@ -465,6 +480,17 @@ func c09Run(r *tr.Run, prog c09Prog) {
 				pubs[h] = sharedPub
 			}
 			r.Emit("addh", "h", h)
+			if len(prog) > 0 && prog[0] == "%" {
+				handles[h] = router.AddNoPublisherHandler(regName(h), "t"+h, hsub, func(msg *message.Message) error { return nil })
+				handles[h].AddMiddleware(func(next message.HandlerFunc) message.HandlerFunc { // (not one of the recorded middlewares)
+					return func(msg *message.Message) ([]*message.Message, error) {
+						outs, err := next(msg)
+						return append(outs, message.NewMessage(msg.UUID+".o", nil)), err
+					}
+				})
+				order = append(order, h)
+				continue
+			}
 			handles[h] = router.AddHandler(regName(h), "t"+h, hsub, "out"+h, pubs[h], func(msg *message.Message) ([]*message.Message, error) {
 				return []*message.Message{message.NewMessage(msg.UUID+".o", nil)}, nil
 			})
